@@ -23,10 +23,12 @@ import (
 
 	"github.com/evanoberholster/imagemeta"
 	"github.com/evanoberholster/imagemeta/exif2"
+	"github.com/evanoberholster/imagemeta/exif2/ifds"
 	"github.com/evanoberholster/imagemeta/imagetype"
 	"github.com/evanoberholster/imagemeta/isobmff"
 	"github.com/evanoberholster/imagemeta/jpeg"
 	"github.com/evanoberholster/imagemeta/meta"
+	"github.com/evanoberholster/imagemeta/meta/utils"
 	"github.com/evanoberholster/imagemeta/png"
 	"github.com/evanoberholster/imagemeta/preview"
 	"github.com/evanoberholster/imagemeta/tiff"
@@ -385,6 +387,21 @@ func call(q Req, in *Inst) (dig string, errs string) {
 		b, err = imagemeta.PreviewCR3(in)
 		dig = digest.Of(b)
 		keep(b)
+	case "RenderPreview": // preview.RenderPreview called directly on the caller's reader: the input is the preview itself
+		pr := preview.NewPreviewReader(preview.Logger)
+		err = pr.RenderPreview(onlyReader{in}, meta.PreviewHeader{Size: uint32(len(q.Input)), Width: 160, Height: 120})
+		dig = digest.Of(pr.PreviewImage)
+		keep(pr.PreviewImage)
+	case "ExifJPEGIfd": // exif2's JPEG entry called directly on the caller's reader: the input is the TIFF block of an APP1 segment
+		ir := exif2.NewIfdReader(exif2.Logger)
+		defer ir.Close()
+		if len(q.Input) >= 8 {
+			bo := utils.BinaryOrder(q.Input)
+			h := meta.NewExifHeader(bo, bo.Uint32(q.Input[4:8]), 0, uint32(len(q.Input)), imagetype.ImageJPEG)
+			h.FirstIfd = ifds.IFD0
+			err = ir.DecodeJPEGIfd(onlyReader{in}, h)
+		}
+		dig = digest.Of(ir.Exif)
 	case "ExifParse":
 		var e exif2.Exif
 		e, err = exif2.Parse(in)
